@@ -5,9 +5,13 @@ V = '/verif'
 props = [json.loads(l) for l in open(os.path.join(V, 'properties.jsonl'))]
 CHECKS = {
  'C01': dict(category='proof', technique='Coq proof of primitive-rule soundness over a finite-table HOL semantics + differential correspondence model/kernel + finite-model search',
-   text='Machine-checked soundness (Coq, axiom-free) of the kernel-rule model for 9 of the 15 primitive rules in every finite standard model; the model is tied to kernel/thm.py by running every generated rule application through both (alpha-equal results, same typing verdict); every sequent the implementation accepts is evaluated in all small standard models by the extracted-in-Coq evaluator. Partial: 6 rules are covered by correspondence+search only.',
+   text='Machine-checked soundness (Coq, axiom-free) of the kernel-rule model for 14 of the 15 primitive rules in every finite standard model (valuations keyed by name and syntactic type); the model is tied to kernel/thm.py by running every generated rule application through both (alpha-equal results, same typing verdict); every sequent the implementation accepts is evaluated in all small standard models by the extracted-in-Coq evaluator. Partial: substitution is covered by correspondence+search only.',
    note='Trusted: Coq kernel, vm_compute, the hand-written model kept honest by the differential correspondence on generated scripts; assumes constants in rule arguments are used at instances of their declared types (the checker does not enforce it).',
    design='7/C01'),
+ 'C03': dict(category='proof', technique='Coq proofs: equality = equality of name-erased terms, fast_compare is a total preorder whose equivalence is equality, typing and denotation preservation of subst_type / subst_bound / abstract_over / beta_norm over the finite-table semantics + differential correspondence on tree and shared-DAG inputs + allocation-history exploration + finite-model evaluation of equations',
+   text='Machine-checked (axiom-free): Term.__eq__ model holds iff the name-erased terms are identical; equal terms hash the same tuple and have the same denotation; fast_compare/fast_compare_typ models are antisymmetric, transitive, compatible with equality and Eq exactly on equal terms; subst_type, subst_bound (any depth, open arguments), abstract_over and beta_norm preserve typing and the denotation in every finite standard model. The models are tied to kernel/term.py, type.py, term_ord.py by ~6000 operation cases and ~600 pairs per run (copies, alpha variants, mutations, shared DAGs, Term() wrappers); == is compared with an independent structural comparison after random allocation / garbage-collection histories; the equations t = beta_norm t, (%x.b) s = b[s], (Lambda x t) u = t[u/x] are evaluated in all small models. Partial: Term.subst has no denotation theorem.',
+   note='Trusted: Coq kernel; hand-written model kept honest by the correspondence; Python hash values and CPython allocation are exercised, not modelled.',
+   design='7/C03'),
  'C02': dict(category='proof', technique='Coq proof that the checker model accepts only proofs in the inductive closure of the rules (invariant over the pre-order traversal) + differential correspondence + positional citation oracle',
    text='Machine-checked (axiom-free) theorem check_sound: for every proof object (any ids, citations, stated sequents, nesting, macro expansions, arbitrary rule functions) a gap-free acceptance by the model of Theory.check_proof yields a sequent derivable by the rules from earlier-verified steps; plus citation-shape, stated-not-stronger, gap and checked_extend theorems. The model is tied to kernel/theory.py + kernel/proof.py by running ~2.8k proof objects (exhaustive single-item shapes, random shapes with ids independent of positions, mutated valid proofs, extension pairs) through both.',
    note='Trusted: Coq kernel; the hand-written model of _check_proof_item kept honest by the differential correspondence; compute_only mode excluded by design.',
